@@ -6,7 +6,7 @@ bad=0
 for d in seeded/*/; do
   [ -f "$d/patch.diff" ] || continue
   ids=$(python3 -c "import json,sys; m=json.load(open('$d/meta.json')); print('' if m.get('superseded_by') else ' '.join(m.get('caught_by',[])))")
-  [ -n "$ids" ] || { echo "skipped (superseded by a fix): $d"; continue; }
+  [ -n "$ids" ] || { echo "skipped (superseded by a fix, or recorded as not caught): $d"; continue; }
   git -C /repo apply "/verif/$d/patch.diff" || { echo "PATCH DOES NOT APPLY: $d"; bad=1; continue; }
   for p in $ids; do
     VERIF_NO_EVIDENCE=1 ./check $p --tier quick >/dev/null 2>&1; rc=$?
